@@ -10,6 +10,7 @@ convert to anything but its truncation or 0.  copyArray with guard elements.  UB
 signed overflow) is on."""
 import json
 import os
+import random
 
 import vlib
 from checks import numbersgen, numcommon
@@ -32,6 +33,16 @@ def run(tier):
         for p in range(parts):
             out = os.path.join(wd, f"sweep-{store}-{p}.ndjson")
             jobs.append((f"sweep-{store}-{p}", [b, "sweep", out, store, str(p * span), str((p + 1) * span - 1), str(stride)], out))
+    # numeric strings of any length and spelling through as<T>(), in double and in single precision builds
+    bf = numcommon.build(["ARDUINOJSON_USE_DOUBLE=0"], "numbers_record-float")
+    shapes = numbersgen.shapes(random.Random(vlib.seed() + 13), 2000 if quick else 40000)
+    for p, bb in enumerate((b, bf, b, bf)):
+        sp = os.path.join(wd, f"shapes{p}.ndjson")
+        with open(sp, "w") as f:
+            for s_ in shapes[p // 2::2]:
+                f.write(json.dumps(s_) + "\n")
+        out = os.path.join(wd, f"strings{p}.ndjson")
+        jobs.append((f"strings{p}", [bb, "parse", sp, out], out))
     good = numcommon.run_jobs(chk, jobs)
     n = numcommon.validate_all(chk, "C13", good, wd)
     with open(os.path.join(wd, "conv.ndjson")) as f:
